@@ -157,6 +157,54 @@ def classify(clause, draws, obs):
     return None
 
 
+def wal_ops(sym, tier):
+    """WriteAheadLog bookkeeping from an arbitrary log state: n entries, an arbitrary subset already
+    discarded (flushed memtables need not cover a contiguous run of sequences when writers overlap),
+    an arbitrary synced_up_to.  discard(S) removes exactly S; truncate(u) exactly the entries <= u;
+    crash() keeps exactly the remaining entries with sequence <= synced_up_to and reports the number lost."""
+    r = Result()
+    N = 5 if tier == "quick" else 6
+    wal = WriteAheadLog("wal", sync_policy=SyncOnBatch(2))
+    n = sym.int("entries", 1, N)
+    seqs = [wal.append_sync(f"k{i}", i) for i in range(n)]
+    synced = sym.int("synced_up_to", 0, N)
+    if synced > n:
+        synced = n
+    wal._synced_up_to_sequence = synced          # state construction (invariant: 0 <= synced_up_to <= last sequence)
+    gone = [q for q in seqs if sym.bool(f"discard{q}")]
+    wal.discard(list(reversed(gone)) if sym.bool("reversed") else list(gone))
+    left = [e.sequence_number for e in wal.recover()]
+    want = [q for q in seqs if q not in gone]
+    if left != want:
+        r.bad("discard_removes_exactly_the_given_sequences", {"entries": seqs, "discarded": gone, "left": left})
+    if gone and gone != list(range(gone[0], gone[-1] + 1)):
+        r.wit.add("non_contiguous_discard")
+    op = sym.choice("then", 2)
+    if op == 1:
+        u = sym.int("truncate_up_to", 0, N)
+        wal.truncate(u)
+        want = [q for q in want if q > u]
+        left = [e.sequence_number for e in wal.recover()]
+        if left != want:
+            r.bad("truncate_removes_exactly_the_prefix", {"up_to": u, "left": left, "want": want})
+    lost = wal.crash()
+    after = [e.sequence_number for e in wal.recover()]
+    keep = [q for q in want if q <= synced]
+    if after != keep:
+        r.bad("crash_keeps_exactly_the_synced_entries", {"before": want, "synced_up_to": synced, "after": after})
+    if lost != len(want) - len(keep):
+        r.bad("crash_reports_the_number_lost", lost, len(want) - len(keep))
+    if any(q <= synced for q in gone) and any(q <= synced for q in want) and any(q > synced for q in gone):
+        r.wit.add("flushed_unsynced_entry_and_synced_entry_still_in_log")
+    again = wal.crash()
+    if again != 0 or [e.sequence_number for e in wal.recover()] != keep:
+        r.bad("second_crash_loses_nothing_more", again)
+    if wal.synced_up_to != synced:
+        r.bad("synced_up_to_unchanged_by_bookkeeping", wal.synced_up_to, synced)
+    r.obs = {"entries": n, "synced": synced, "discarded": gone, "after": after}
+    return r
+
+
 MANIFEST = {
     "note": "Crash point = a symbolic number of delivered events (control.step), i.e. between any two simulation events; a crash inside one "
             "handler is not a state the engine exposes. 'Durably acknowledged' = wal.append() returned with synced_up_to >= its sequence.",
@@ -168,6 +216,13 @@ HARNESSES = [
       require=lambda tier: ["durable_ack"], classify=classify,
       functions=["WriteAheadLog.append/crash/recover", "SyncEveryWrite/SyncOnBatch/SyncPeriodic.should_sync"],
       bounds=lambda tier: {"appenders": 2, "appends each": 2, "second appender start": "symbolic ns [0, 1.5 ms]", "crash after": "symbolic number of events [0,24]", "policies": POLICIES}),
+    H(name="c15_wal_ops", fn=wal_ops, shape="I", budget=lambda tier: 900.0,
+      cubes=lambda tier: [{"entries": n} for n in range(1, (5 if tier == "quick" else 6) + 1)],
+      require=lambda tier: ["non_contiguous_discard", "flushed_unsynced_entry_and_synced_entry_still_in_log"], classify=classify,
+      functions=["WriteAheadLog.append_sync/discard/truncate/crash/recover"],
+      bounds=lambda tier: {"entries": "1..%d" % (5 if tier == "quick" else 6), "discarded": "arbitrary subset, given in either order", "synced_up_to": "symbolic in [0, entries]", "then": "crash | truncate(u) then crash; crash twice"},
+      assumptions=["0 <= synced_up_to <= last sequence (set directly on the object)"],
+      outside=["more entries"]),
     H(name="c15_crash_recovery", fn=crash_recovery, shape="S", budget=lambda tier: 1500.0 if tier == "quick" else 3000.0,
       cubes=lambda tier: [{"policy": a, "memtable_minus_1": b, "writer2_deletes_k0": d} for a in range(3) for b in range(2) for d in range(2)],
       require=lambda tier: ["durable_write_before_crash", "crash_in_the_middle_of_a_flush", "ran_to_completion"], classify=classify,
